@@ -1,1 +1,199 @@
-(* placeholder *)
+(** C05 — the committed transactions of any concurrent execution are
+    equivalent, on the rows they read and wrote, to a serial order.
+
+    Model: Model/Sched.v — strict two-phase row locking over the lock manager of
+    Model/Lock.v (C16), no-wait conflict handling (a denied request aborts the
+    requester), in-place updates with before-image rollback.  Every statement
+    below is about EVERY schedule: any number of transactions, rows and
+    operations, any interleaving, any initial store [st0].
+
+      trace st0 ops : the event trace  (EvRead t x v | EvWrite t x v |
+                      EvCommit t | EvAbort t), positions = [nth_error]
+      final st0 ops : the engine state after the schedule
+      committed tr  : committed transactions in the order of their EvCommit
+      progs tr      : for each of them, in that order, its own events
+      sout / sstore : trace / final store of running those programs one after
+                      the other on [st0] (reads are re-read from the store)
+
+    The serial witness is the COMMIT ORDER.  Items are row ids: a row that
+    newly starts to match a predicate (a phantom) is not an item of this model,
+    so the documented phantom exception is outside the statements by
+    construction.  Stores are compared row by row ([sget]); rows still locked by
+    an unfinished writer are excluded from the final-store comparison (their
+    transaction is neither committed nor rolled back yet).
+    Statements only; the proofs are in Proofs/SchedProofs.v. *)
+From Coq Require Import List NArith Bool.
+From SDB Require Import Base.Assoc Model.Lock Model.Sched Proofs.SchedProofs.
+Import ListNotations.
+Open Scope N_scope.
+
+(** (a) Every read/write happens under the transaction's lock (S or X for a
+    read, X for a write: [locked_for]) and the lock is kept until the
+    transaction's EvCommit/EvAbort.  Position form: the access is at position
+    [i]; for every later trace position [k] before which the transaction has
+    not ended there is a point of the schedule whose trace is the first [k]
+    events, and at EVERY such point the lock is held. *)
+Theorem access_under_lock : forall st0 ops i k e,
+  nth_error (trace st0 ops) i = Some e -> (i < k <= length (trace st0 ops))%nat ->
+  (forall m f, (m < k)%nat -> nth_error (trace st0 ops) m = Some f ->
+               ~ is_finish f (ev_txn e)) ->
+  (exists opsA opsB, ops = opsA ++ opsB /\ trace st0 opsA = firstn k (trace st0 ops)) /\
+  (forall opsA opsB, ops = opsA ++ opsB -> trace st0 opsA = firstn k (trace st0 ops) ->
+     locked_for (locks (final st0 opsA)) e).
+Proof. exact access_under_lock_lemma. Qed.
+Print Assumptions access_under_lock.
+
+(** State form of (a), at every prefix [ops1] of every schedule: the trace only
+    grows; an event of a transaction that has not ended is covered by its lock;
+    a transaction that has ended holds nothing. *)
+Theorem access_under_lock_at_every_point : forall st0 ops1 ops2 e,
+  In e (trace st0 ops1) ->
+  (exists tl, trace st0 (ops1 ++ ops2) = trace st0 ops1 ++ tl) /\
+  (~ finished (trace st0 ops1) (ev_txn e) -> locked_for (locks (final st0 ops1)) e) /\
+  (finished (trace st0 ops1) (ev_txn e) ->
+     forall x, ~ holds (locks (final st0 ops1)) (ev_txn e) x).
+Proof. exact access_under_lock_state. Qed.
+Print Assumptions access_under_lock_at_every_point.
+
+(** A transaction that has ended emits nothing more (so it has exactly one
+    end event, and every event of it precedes that). *)
+Theorem nothing_after_the_end : forall st0 ops k j f e,
+  nth_error (trace st0 ops) k = Some f -> is_finish f (ev_txn e) ->
+  nth_error (trace st0 ops) j = Some e -> (j <= k)%nat.
+Proof. exact no_event_after_finish. Qed.
+Print Assumptions nothing_after_the_end.
+
+(** (b) Two conflicting events (same row, at least one a write) of different
+    transactions: the first transaction has ended strictly between them. *)
+Theorem conflicts_follow_commit_order : forall st0 ops i j e1 e2,
+  nth_error (trace st0 ops) i = Some e1 -> nth_error (trace st0 ops) j = Some e2 ->
+  (i < j)%nat -> ev_txn e1 <> ev_txn e2 -> conflict e1 e2 ->
+  exists k f, (i < k < j)%nat /\ nth_error (trace st0 ops) k = Some f /\
+              is_finish f (ev_txn e1).
+Proof. exact conflicts_lemma. Qed.
+Print Assumptions conflicts_follow_commit_order.
+
+(** ... hence, if both commit, the first one's commit lies between the two
+    events and before the second one's commit. *)
+Theorem conflicting_commits_in_order : forall st0 ops i j c1 c2 e1 e2,
+  nth_error (trace st0 ops) i = Some e1 -> nth_error (trace st0 ops) j = Some e2 ->
+  (i < j)%nat -> ev_txn e1 <> ev_txn e2 -> conflict e1 e2 ->
+  nth_error (trace st0 ops) c1 = Some (EvCommit (ev_txn e1)) ->
+  nth_error (trace st0 ops) c2 = Some (EvCommit (ev_txn e2)) ->
+  (i < c1 < j)%nat /\ (j < c2)%nat.
+Proof. exact commit_order_lemma. Qed.
+Print Assumptions conflicting_commits_in_order.
+
+(** (c) Serial execution in commit order.  Running the committed
+    transactions' programs one after the other on the initial store (aborted
+    transactions skipped entirely) reproduces, transaction by transaction, the
+    very events of the real trace — in particular every value read by a
+    committed transaction — and ends in the real final store on every row that
+    is not still being written by an unfinished transaction. *)
+Theorem serial_in_commit_order : forall st0 ops,
+  sout st0 (progs (trace st0 ops)) = concat (progs (trace st0 ops)) /\
+  (forall t x v, In (EvRead t x v) (trace st0 ops) -> In t (committed (trace st0 ops)) ->
+     In (EvRead t x v) (sout st0 (progs (trace st0 ops)))) /\
+  (forall x, (forall t v, In (EvWrite t x v) (trace st0 ops) -> finished (trace st0 ops) t) ->
+     sget (store (final st0 ops)) x = sget (sstore st0 (progs (trace st0 ops))) x).
+Proof. exact serial_lemma. Qed.
+Print Assumptions serial_in_commit_order.
+
+(** The replayed programs are the schedule's own operations: the events of a
+    committed transaction are, in order, its operations in the schedule up to
+    and including its commit request ([ev_op] forgets the value a read
+    returned); it has no abort event. *)
+Theorem committed_program : forall st0 ops t, In t (committed (trace st0 ops)) ->
+  map ev_op (proj t (trace st0 ops)) = upto_end (oproj t ops) /\
+  ~ In (EvAbort t) (trace st0 ops).
+Proof. exact committed_program_lemma. Qed.
+Print Assumptions committed_program.
+
+(** At every point of every execution, a transaction that has not ended has
+    seen exactly what it would have seen running alone on the serial store of
+    the transactions committed so far. *)
+Theorem own_view : forall st0 ops t, ~ finished (trace st0 ops) t ->
+  rout (sstore st0 (progs (trace st0 ops))) (proj t (trace st0 ops)) =
+  proj t (trace st0 ops).
+Proof. exact own_view_lemma. Qed.
+Print Assumptions own_view.
+
+(** (d) The property's own words. *)
+
+(** No lost update: [t1] and [t2] both read [x], both write [x], both commit —
+    then they did not both read the old version: one of the two reads comes
+    after the other transaction's commit. *)
+Theorem no_lost_update : forall st0 ops t1 t2 x a1 b1 a2 b2 r1 w1 r2 w2 c1 c2,
+  t1 <> t2 ->
+  nth_error (trace st0 ops) r1 = Some (EvRead t1 x a1) ->
+  nth_error (trace st0 ops) w1 = Some (EvWrite t1 x b1) ->
+  nth_error (trace st0 ops) r2 = Some (EvRead t2 x a2) ->
+  nth_error (trace st0 ops) w2 = Some (EvWrite t2 x b2) ->
+  nth_error (trace st0 ops) c1 = Some (EvCommit t1) ->
+  nth_error (trace st0 ops) c2 = Some (EvCommit t2) ->
+  (c2 < r1)%nat \/ (c1 < r2)%nat.
+Proof. exact no_lost_update_lemma. Qed.
+Print Assumptions no_lost_update.
+
+(** Repeatable read (any transaction, committed or not): two reads of the same
+    row with no own write of it in between return the same value. *)
+Theorem repeatable_read : forall st0 ops i j t x v1 v2,
+  nth_error (trace st0 ops) i = Some (EvRead t x v1) ->
+  nth_error (trace st0 ops) j = Some (EvRead t x v2) -> (i < j)%nat ->
+  (forall k w, (i < k < j)%nat -> nth_error (trace st0 ops) k <> Some (EvWrite t x w)) ->
+  v1 = v2.
+Proof. exact repeatable_read_lemma. Qed.
+Print Assumptions repeatable_read.
+
+(** No dirty read (any transaction): a value read is the initial value, or the
+    reader's own earlier write, or was written by a transaction that committed
+    before the read. *)
+Theorem no_dirty_read : forall st0 ops j t x v,
+  nth_error (trace st0 ops) j = Some (EvRead t x v) ->
+  v = sget st0 x \/
+  (exists i, (i < j)%nat /\ nth_error (trace st0 ops) i = Some (EvWrite t x v)) \/
+  (exists t' i c, (i < c < j)%nat /\
+     nth_error (trace st0 ops) i = Some (EvWrite t' x v) /\
+     nth_error (trace st0 ops) c = Some (EvCommit t')).
+Proof. exact no_dirty_read_lemma. Qed.
+Print Assumptions no_dirty_read.
+
+(** No write skew between rows both transactions read: [t1] reads [x] and
+    writes [y], [t2] reads [y] and writes [x], both commit — then they did not
+    both read the old versions: one of the two reads comes after the other
+    transaction's commit. *)
+Theorem no_write_skew_on_read_rows :
+  forall st0 ops t1 t2 x y a1 b1 a2 b2 r1 w1 r2 w2 c1 c2,
+  t1 <> t2 ->
+  nth_error (trace st0 ops) r1 = Some (EvRead t1 x a1) ->
+  nth_error (trace st0 ops) w1 = Some (EvWrite t1 y b1) ->
+  nth_error (trace st0 ops) r2 = Some (EvRead t2 y a2) ->
+  nth_error (trace st0 ops) w2 = Some (EvWrite t2 x b2) ->
+  nth_error (trace st0 ops) c1 = Some (EvCommit t1) ->
+  nth_error (trace st0 ops) c2 = Some (EvCommit t2) ->
+  (c2 < r1)%nat \/ (c1 < r2)%nat.
+Proof. exact no_write_skew_lemma. Qed.
+Print Assumptions no_write_skew_on_read_rows.
+
+(** Non-vacuity.  Transactions 1 and 2 both read row 10 and both try to write
+    it: the upgrade of 1 is denied (2 also holds S) and 1 is aborted; 2 is then
+    the sole holder, its upgrade is granted and its read-modify-write commits.
+    Transaction 3 reads row 10 twice (same value, the one 2 committed), writes
+    row 11 and commits.  The late write of the aborted 1 is ignored.  Row 12 is
+    written by 4, which aborts: the before-image is restored. *)
+Example c05_nonvacuous :
+  let st0 := [(10, 1); (12, 3)] in
+  let ops := [SRead 1 10; SRead 2 10; SWrite 1 10 5; SWrite 2 10 7; SWrite 4 12 8;
+              SCommit 2; SRead 3 10; SRead 3 11; SWrite 4 12 6; SRead 3 10;
+              SWrite 3 11 9; SAbort 4; SCommit 3; SWrite 1 10 99] in
+  trace st0 ops =
+    [EvRead 1 10 1; EvRead 2 10 1; EvAbort 1; EvWrite 2 10 7; EvWrite 4 12 8;
+     EvCommit 2; EvRead 3 10 7; EvRead 3 11 0; EvWrite 4 12 6; EvRead 3 10 7;
+     EvWrite 3 11 9; EvAbort 4; EvCommit 3] /\
+  committed (trace st0 ops) = [2; 3] /\
+  sout st0 (progs (trace st0 ops)) =
+    [EvRead 2 10 1; EvWrite 2 10 7; EvCommit 2;
+     EvRead 3 10 7; EvRead 3 11 0; EvRead 3 10 7; EvWrite 3 11 9; EvCommit 3] /\
+  map (sget (store (final st0 ops))) [10; 11; 12] = [7; 9; 3] /\
+  map (sget (sstore st0 (progs (trace st0 ops)))) [10; 11; 12] = [7; 9; 3].
+Proof. vm_compute. repeat split. Qed.
